@@ -3,6 +3,11 @@
 as 'also' in meta.json), records which checks detect it in seeded/<id>/meta.json and
 seeded/MATRIX.md. /repo must be clean; it is restored after every run."""
 import json, os, subprocess, sys, glob
+# SEED_ROOT / SEED_REPO: run the checks from an isolated copy of /verif whose go.mod
+# replace directive points to a scratch worktree of the repository (so a sweep in
+# /verif against /repo is not disturbed); results are always written to /verif/seeded
+ROOT = os.environ.get('SEED_ROOT', '/verif')
+REPO = os.environ.get('SEED_REPO', '/repo')
 os.chdir('/verif')
 rows = []
 only = sys.argv[1:]
@@ -12,20 +17,20 @@ for d in sorted(glob.glob('seeded/*/')):
         continue
     meta = json.load(open(d + 'meta.json'))
     props = [meta['property']] + meta.get('also', [])
-    if subprocess.run(['git', '-C', '/repo', 'status', '--porcelain'], capture_output=True, text=True).stdout.strip():
-        sys.exit('/repo not clean')
-    if subprocess.run(['git', '-C', '/repo', 'apply', '/verif/' + d + 'patch.diff']).returncode != 0:
+    if subprocess.run(['git', '-C', REPO, 'status', '--porcelain'], capture_output=True, text=True).stdout.strip():
+        sys.exit(REPO + ' not clean')
+    if subprocess.run(['git', '-C', REPO, 'apply', '/verif/' + d + 'patch.diff']).returncode != 0:
         rows.append((sid, meta['property'], 'PATCH DOES NOT APPLY', ''))
         continue
     det = []
     try:
         for p in props:
-            out = subprocess.run(['./check', p, 'quick'], capture_output=True, text=True)
+            out = subprocess.run([ROOT + '/check', p, 'quick'], capture_output=True, text=True)
             v = [l for l in out.stdout.splitlines() if l.startswith('VIOLATION')]
             det.append({'check': p, 'tier': 'quick', 'exit': out.returncode, 'violation_keys': sorted({l.split('key=')[1].split(' ::')[0] for l in v if 'key=' in l})})
     finally:
-        subprocess.run(['git', '-C', '/repo', 'checkout', '--', '.'])
-        subprocess.run(['git', '-C', '/repo', 'clean', '-fdq'])
+        subprocess.run(['git', '-C', REPO, 'checkout', '--', '.'])
+        subprocess.run(['git', '-C', REPO, 'clean', '-fdq'])
     meta['detected_by'] = det
     json.dump(meta, open(d + 'meta.json', 'w'), indent=1)
     rows.append((sid, meta['property'], ', '.join('%s:%s' % (x['check'], 'DETECTED ' + '/'.join(x['violation_keys'][:2]) if x['exit'] == 1 else 'missed (rc=%d)' % x['exit']) for x in det), meta.get('summary', '')[:140]))
